@@ -19,6 +19,11 @@ func ParseCommit(oid OID, data []byte) (*Commit, error) {
 	var parents []OID
 	var tree OID
 	var treeFound bool
+	// As in Git itself, the `tree` header and the `parent` headers
+	// are the start of the header block. A header with one of these
+	// names that comes after some other header (e.g., after
+	// `committer`) is an extra header, not a tree or a parent.
+	var otherHeaderSeen bool
 	iter, err := NewObjectHeaderIter(oid.String(), data)
 	if err != nil {
 		return nil, err
@@ -28,14 +33,16 @@ func ParseCommit(oid OID, data []byte) (*Commit, error) {
 		if err != nil {
 			return nil, err
 		}
-		switch key {
-		case "parent":
+		switch {
+		case otherHeaderSeen:
+			// An extra header; ignore it.
+		case key == "parent":
 			parent, err := NewOID(value)
 			if err != nil {
 				return nil, fmt.Errorf("malformed parent header in commit %s", oid)
 			}
 			parents = append(parents, parent)
-		case "tree":
+		case key == "tree":
 			if treeFound {
 				return nil, fmt.Errorf("multiple trees found in commit %s", oid)
 			}
@@ -44,6 +51,8 @@ func ParseCommit(oid OID, data []byte) (*Commit, error) {
 				return nil, fmt.Errorf("malformed tree header in commit %s", oid)
 			}
 			treeFound = true
+		default:
+			otherHeaderSeen = true
 		}
 	}
 	if !treeFound {
